@@ -411,6 +411,7 @@ def check(prop, tier):
     groups = cfg['groups']
     units = cfg['units']          # unit ids whose obligations belong to this property ("*" = all)
     safety_only = cfg.get('safety_only', False)
+    trusted_conf = {}
     with concurrent.futures.ThreadPoolExecutor(max_workers=10) as ex:
         results = list(ex.map(lambda g: run_group(g, tier), groups))
     if tier == 'thorough':
@@ -545,9 +546,33 @@ def check(prop, tier):
         # how the false `similar` tiling assumption / defect D5 was found). Labelled bounded.
         try:
             import cexsearch
-            bounded_runs = cexsearch.run_units(sorted(units), timeout=3000)
+            # ... and the conformance tests of the trusted base (T.* topics: the assumed specs of std,
+            # regex, unidiff, globset, itertools compared with the real functions on small scopes)
+            # a topic is run when the generated text of one of the property's groups mentions its specs
+            gen = ''
+            for r in results:
+                try:
+                    with open(r.get('generated') or '') as fh:
+                        gen += fh.read()
+                except OSError:
+                    pass
+            markers = {'T.unidiff': ['line_wf', 'spec_hunks'], 'T.unquote': ['c_unquote_spec'], 'T.merge': ['merge_seq'],
+                       'T.globset': ['axiom_glob_set_build'], 'T.paths': ['axiom_ancestors_start_with_self', 'axiom_dir_or_file_exists'],
+                       'T.sort': ['sort_by', 'binary_search_by'], 'T.regex': ['re_is_match', 're_group']}
+            t_topics = sorted(k for k in cexsearch.load_map() if k.startswith('T.')
+                              and (k not in markers or any(m in gen for m in markers[k])))
+            bounded_runs = cexsearch.run_units(sorted(units) + t_topics, timeout=3000)
         except Exception as e:
             bounded_runs = {'_error': {'status': 'error', 'detail': repr(e)}}
+        for u in [k for k in bounded_runs if k.startswith('T.')]:
+            trusted_conf[u] = bounded_runs.pop(u)
+        for u, b in sorted(trusted_conf.items()):
+            if b.get('status') == 'cex':
+                # an assumption of the trusted base is refuted: nothing proved on top of it is believable,
+                # but it is not a violation of the property either => undecided, never an alarm
+                lines_out.append('UNDECIDED property=%s reason=trusted-base assumption refuted by conformance test %s: %s' % (
+                    prop, u, json.dumps(b.get('detail'))[:400]))
+                exit_code = 2
         for u, b in sorted(bounded_runs.items()):
             if b.get('status') == 'cex':
                 os.makedirs(REPLAYS, exist_ok=True)
@@ -599,6 +624,7 @@ def check(prop, tier):
             'known_findings': [{'id': k['id'], 'obligation': k['obligation'], 'what': k['what'], 'carve_out': k.get('carve_out')} for k in known_obl.values()],
             'explanation': cfg.get('explanation', ''),
             'vacuity_canaries': {r['group']: r.get('canaries') for r in results},
+            'trusted_base_conformance': [{'topic': u, 'status': b.get('status'), 'detail': b.get('detail')} for u, b in sorted(trusted_conf.items())],
             'bounded_stand_in_runs': [{'unit': u, 'status': b.get('status'), 'detail': b.get('detail')} for u, b in bounded_runs.items()],
         },
         'assumptions': trusted + ['rule ' + x for x in rules] + cfg.get('trusted_notes', []),
